@@ -594,6 +594,117 @@ func c03Case(rt *rapid.T, rec *vh.Recorder, base string) {
 	rec.Case(fmt.Sprintf("%s || journal %d B, %d records, %d acks, index %d B; %d cuts, %d holes, plan %d seed %x", h.opsString(), n, len(h.recs), len(h.acks), len(h.finalIdx), len(cuts), holes, plan, x.seed), nontrivial, cl...)
 }
 
+const c03FirstRule = "brand-new directory: a drawn number of leaf puts and the first commit ever; crash images = the manifest as the first commit wrote it (it is written, fsynced and renamed before the journal bytes are flushed) with every journal prefix shorter than the first acknowledged size (all when < 700 bytes, else record boundaries +-2 and 300 seeded cuts) x tail variants; open must succeed and show either no root or the in-flight root with every chunk reachable from it readable. Non-trivial: >= 2 chunk records in the first commit and a cut that keeps at least one complete record but not the root record; distinct by op sequence + seed."
+
+// c03FirstCommitCase: crash points inside the very first commit of a new database.
+func c03FirstCommitCase(rt *rapid.T, rec *vh.Recorder, base string) {
+	dir := filepath.Join(base, "first")
+	_ = os.RemoveAll(dir)
+	defer os.RemoveAll(dir)
+	defer verifJWithBufSize(rapid.SampledFrom(verifJBufSizes).Draw(rt, "journalWriterBuffSize"))()
+	h := verifJBuildHistory(rt, dir, verifJHistCfg{minOps: 0, maxOps: 0, maxNovels: []int{0, 0, 2}, firstPuts: 5})
+	x := &c03Ctx{rt: rt, h: h, imgDir: filepath.Join(base, "first-img"), classes: map[string]int{}}
+	defer os.RemoveAll(x.imgDir)
+	x.seed = rapid.Uint64().Draw(rt, "variantSeed")
+	x.addrs = h.sortedAddrs()
+	first := h.acks[0]
+	man := h.snaps[first.snap].manifest
+	if man == nil {
+		rt.Fatalf("no manifest after the first commit")
+	}
+	cutSet := map[int64]bool{0: true}
+	if first.size < 700 {
+		for c := int64(0); c < first.size; c++ {
+			cutSet[c] = true
+		}
+	} else {
+		r := verifJMix(x.seed, 3)
+		for _, q := range h.recs {
+			for d := int64(-2); d <= 2; d++ {
+				if c := q.off + d; c >= 0 && c < first.size {
+					cutSet[c] = true
+				}
+			}
+		}
+		for i := 0; i < 300; i++ {
+			cutSet[int64(r.intn(int(first.size)))] = true
+		}
+	}
+	cuts := make([]int64, 0, len(cutSet))
+	for c := range cutSet {
+		cuts = append(cuts, c)
+	}
+	sort.Slice(cuts, func(i, j int) bool { return cuts[i] < cuts[j] })
+	sawPartial := false
+	known := 0
+	for _, cut0 := range cuts {
+		cut := cut0
+		vr := verifJMix(x.seed, uint64(cut)+5)
+		tail := vr.intn(c03NTails)
+		tb := x.tailBytes(cut, tail)
+		img := append(append([]byte{}, h.J[:cut]...), tb...)
+		for cut < int64(len(h.J)) && cut < int64(len(img)) && img[cut] == h.J[cut] {
+			cut++
+		}
+		if cut >= first.size {
+			continue // became the acknowledged state; covered by the main family
+		}
+		what := fmt.Sprintf("first-commit image: manifest of the first commit (root %s) + journal cut=%d/%d tail=%s(%dB)", verifJShort(first.root), cut0, first.size, c03TailNames[tail], len(tb))
+		if err := verifJWriteImage(x.imgDir, img, man, nil); err != nil {
+			vh.Inconclusive(rt, "cannot write image: %v", err)
+		}
+		x.images++
+		fail := func(format string, a ...any) {
+			msg := what + ": " + fmt.Sprintf(format, a...)
+			if verifJFindingOpen("C03", "C03-first-commit-root-before-chunks") {
+				known++
+				return
+			}
+			rt.Fatalf("%s", msg)
+		}
+		st, o, err := x.openAndRead(x.imgDir)
+		if err != nil {
+			fail("open failed: %v", err)
+			continue
+		}
+		switch o.root {
+		case hash.Hash{}:
+			x.class("first:no_root")
+		case first.root:
+			x.class("first:inflight_root")
+			bad := ""
+			for _, a := range x.addrs {
+				c := h.chunks[a]
+				if c.commit == 0 && (o.view.get[a] != verifJSum(c.data) || o.view.has[a] != "true") {
+					bad = fmt.Sprintf("Root() is the in-flight root %s of the interrupted first commit, but its chunk %s (%s) reads Has=%s Get=%s", verifJShort(first.root), verifJShort(a), c.desc, o.view.has[a], o.view.get[a])
+					break
+				}
+			}
+			if bad != "" {
+				_ = st.Close()
+				fail("%s", bad)
+				continue
+			}
+		default:
+			_ = st.Close()
+			rt.Fatalf("%s: Root() = %s, neither empty nor the in-flight root", what, o.root)
+		}
+		x.mustClose(what, st)
+		if k := h.floorBoundary(cut); k > 0 && k < first.size {
+			sawPartial = true
+		}
+	}
+	if known > 0 {
+		rec.Excluded(known)
+		vh.ReportKnown("C03", "C03-first-commit-root-before-chunks", fmt.Sprintf("%d crash images inside the first commit of a new directory open with a root whose chunks are missing", known))
+	}
+	for c, k := range x.classes {
+		rec.Class(c, k)
+	}
+	rec.Evals(x.images)
+	rec.Case(fmt.Sprintf("%s || first commit %d B, %d records; %d cuts seed %x", h.opsString(), first.size, len(h.recs), len(cuts), x.seed), len(h.recs) >= 3 && sawPartial, fmt.Sprintf("bufSz=%d", h.bufSz))
+}
+
 func c03Bucket(n int) string {
 	switch {
 	case n < 3:
@@ -635,6 +746,10 @@ func TestVerif_C03(t *testing.T) {
 	defer rec.Write(t)
 	base, cleanup := vh.ScratchDir(t, "c03-")
 	defer cleanup()
-	vh.Check(t, "cuts", 14, 30, func(rt *rapid.T) { c03Case(rt, rec, base) })
+	vh.Check(t, "cuts", 12, 30, func(rt *rapid.T) { c03Case(rt, rec, base) })
+	rec2 := vh.NewRecorder("C03", "first_commit", "fault_enumeration", c03FirstRule,
+		"the manifest of the interrupted first commit is taken as observed right after that commit returned: ChunkJournal.Update writes it (flushToBackingManifest) before commitRootHash flushes the journal, and nothing rewrites it in between")
+	defer rec2.Write(t)
+	vh.Check(t, "first_commit", 6, 20, func(rt *rapid.T) { c03FirstCommitCase(rt, rec2, base) })
 	_ = strings.Join
 }
